@@ -75,6 +75,7 @@ Common ==
   {Fn("scale", a, b, "") : a \in {2, -1}, b \in {1, 3}} \cup
   {Fn("scale1", a, 0, "") : a \in {2, -1}} \cup
   {Fn("rotate", q, 0, u) : q \in {1, 2, 3, -1}, u \in Units} \cup
+  {Fn("rotate", 0, 0, u) : u \in {"deg", "rad"}} \cup {Fn("skewX", 0, 0, "deg")} \cup       \* (zero angles are angles)
   {Fn("skewX", t, 0, u) : t \in {1, -1}, u \in {"deg", "rad"}} \cup
   {Fn("skewY", t, 0, u) : t \in {1, -1}, u \in {"deg", "grad"}} \cup
   {Fn("matrix", m, 0, "") : m \in 2..4}
